@@ -69,12 +69,16 @@ class Scte35Events(RepeatingEventBase):
             avails_expected = 1 + (self.count // 2)
         else:
             avails_expected = avail_num = 0
+        segmentation_event_id = avail_num
+        if avails_expected > 0xFF:
+            # avail_num and avails_expected are 8 bit fields; zero means "not used"
+            avails_expected = avail_num = 0
 
         # According to ETSI TS 103 752-1 V1.1.1 the Placement Opportunity
         # and Advertisement segmentation_descriptors may be of type
         # "Provider" or "Distributor"
         segmentation_descriptor = descriptors.SegmentationDescriptor(
-            segmentation_event_id=avail_num,
+            segmentation_event_id=segmentation_event_id,
             segmentation_duration=0,
             segmentation_type=(
                 descriptors.SegmentationTypeId.PROVIDER_PLACEMENT_OP_START +
